@@ -473,7 +473,9 @@ func (c *Connection) handlePingRes(frame *Frame) bool {
 
 // handlePingReq responds to the pingReq message with a pingRes.
 func (c *Connection) handlePingReq(frame *Frame) {
-	if state := c.readState(); state != connectionActive {
+	// A draining connection still answers pings: a protocol error would fail
+	// the calls it has accepted and is waiting to complete.
+	if state := c.readState(); state == connectionClosed {
 		c.protocolError(frame.Header.ID, errConnNotActive{"ping on incoming", state})
 		return
 	}
